@@ -51,6 +51,12 @@ BREAKING = [
     ("filestore-root-prefix-unnormalised", FS, "        let relative = path.strip_prefix(&self.root_path).unwrap_or(path);\n        self.root_path.join(normalize_path(relative))",
      "        if path.starts_with(&self.root_path) {\n            return path.to_path_buf();\n        }\n        self.root_path.join(normalize_path(path))", {"C12": 1}),
     ("filestore-normalize-keeps-parent", FS, "            Utf8Component::ParentDir => {\n                ret.pop();\n            }", "            Utf8Component::ParentDir => {\n                ret.push(\"..\");\n            }", {"C12": 1}),
+    ("recv-failrest-forgotten", RECV, "                            fail_rest = rep.action_and_status.is_fail();", "                            let _ = rep.action_and_status.is_fail();", {"C13": 1}),
+    ("recv-not-performed-executes", RECV, "                        true => FileStoreResponse::not_performed(request),", "                        true => self.filestore.process_request(request),", {"C13": 1}),
+    ("recv-complete-unconditional", RECV, "        self.delivery_code = if self.has_naks() {\n            DeliveryCode::Incomplete\n        } else {\n            DeliveryCode::Complete\n        };", "        self.delivery_code = DeliveryCode::Complete;", {"C18": 1}),
+    ("recv-finished-pdu-drops-responses", RECV, "                filestore_response: self.filestore_response.clone(),\n                fault_location,", "                filestore_response: vec![],\n                fault_location,", {"C13": 1}),
+    ("send-unack-closure-shutdown", SEND, "                                self.shutdown();\n                            }\n                        }\n                    }\n                }\n                SendState::Cancelled", "                            }\n                            self.shutdown();\n                        }\n                    }\n                }\n                SendState::Cancelled", {"C18": 1}),
+    ("recv-resume-naks-any-mode", RECV, "                if self.config.transmission_mode == TransmissionMode::Acknowledged\n                    && (matches!(self.nak_procedure, NakProcedure::Immediate(_))\n                        || self.eof_received())", "                if matches!(self.nak_procedure, NakProcedure::Immediate(_)) || self.eof_received()", {"C18": 1}),
     ("crc-poly-typo", PDU, "let poly = 0x1021;", "let poly = 0x1012;", {"C15": 1}),
     ("crc-over-reencoding", PDU, "                    let mut temp = received_pdu.header.clone().encode();\n                    temp.extend_from_slice(remaining_msg.as_slice());\n                    temp",
      "                    let mut temp = received_pdu.clone().encode();\n                    temp.truncate(temp.len() - 2);\n                    temp", {"C15": 1}),
